@@ -33,9 +33,9 @@ func (r *Reader) ReadAt(b []byte, off int64) (int, error) {
 	return copy(b, r.buf[off:]), nil
 }
 
-// Bytes returns the underlying byte slice.
+// Bytes returns the underlying byte slice that has not been read yet.
 func (r *Reader) Bytes() []byte {
-	return r.buf
+	return r.buf[r.pos:]
 }
 
 // Reset resets the position of the read pointer to the beginning of the underlying byte slice.
